@@ -776,7 +776,22 @@ def check_c13(c, result):
               'overload_declared_in_reverse': OV2 + OV1 + frm + 'ov(%s, %s)' % (m, m) + tail,
               'overload_inner_inlined': OV1 + OV2i + frm + 'ov(%s, %s)' % (m, m) + tail,
               'overload_both_called': OV1 + OV2 + frm + 'ov(%s) && ov(%s, %s)' % (m, m, m) + tail}
-        for tag, grp in (('a', ga), ('b', gb), ('c', gc)):
+        # predicates whose body is a relational or `in` test, used as OPERANDS of == and != (also through a forwarding
+        # predicate): the call stands for its parenthesised body wherever it is written
+        REL = 'predicate rel(%s x) { x.%s() < %s } ' % (K, acc, v2)
+        INP = 'predicate inl(%s x) { x.%s() in [%s, %s] } ' % (K, acc, v1, v2)
+        FWD = 'predicate fwd(%s z) { rel(z) } ' % K
+        EQV = 'predicate eqv(%s x) { x.%s() == %s } ' % (K, acc, v1)
+        gr = {'orig': frm + '(%s.%s() == %s) == (%s.%s() < %s)' % (m, acc, v1, m, acc, v2) + tail,
+              'call_on_the_right_of_eq': EQV + REL + frm + 'eqv(%s) == rel(%s)' % (m, m) + tail,
+              'call_on_the_left_of_eq': EQV + REL + frm + 'rel(%s) == eqv(%s)' % (m, m) + tail,
+              'through_a_forwarding_predicate': EQV + REL + FWD + frm + 'eqv(%s) == fwd(%s)' % (m, m) + tail,
+              'body_written_out_on_the_right': EQV + frm + 'eqv(%s) == (%s.%s() < %s)' % (m, m, acc, v2) + tail}
+        gs = {'orig': frm + '(%s.%s() == %s) != (%s.%s() in [%s, %s])' % (m, acc, v1, m, acc, v1, v2) + tail,
+              'in_body_on_the_right_of_ne': EQV + INP + frm + 'eqv(%s) != inl(%s)' % (m, m) + tail,
+              'in_body_on_the_left_of_ne': EQV + INP + frm + 'inl(%s) != eqv(%s)' % (m, m) + tail,
+              'negated_operands': EQV + INP + frm + '!eqv(%s) != !inl(%s)' % (m, m) + tail}
+        for tag, grp in (('a', ga), ('b', gb), ('c', gc), ('r', gr), ('s', gs)):
             ids = {}
             for name, text in grp.items():
                 qid = 'n%d%s_%s' % (gi, tag, name)
@@ -806,7 +821,7 @@ def check_c13(c, result):
                 ids[name] = qid
                 tq.append((qid, text))
             groups.append((ids, 2))
-        c.stats['c13_nested_value_groups'] += 3
+        c.stats['c13_nested_value_groups'] += 5
     # conditions whose literals hold multi-byte characters, raw line breaks, tabs, white-space runs or end in a
     # backslash: the predicate-free original, the same with a never-called declaration, behind a call, as a value
     for wi, word in enumerate(['café', '日本', '😀x', 'a\nb', 'a\r\nb', 'p  q', 'p\tq', 'C:\\', 'ü' * 40, 'naïve "q" é', 'Kapı ıı', 'ſſ İ \u212a', 'ȺȾȺȾ', 'e\u0301\u200f'] if vkinds else []):
@@ -897,6 +912,23 @@ def check_c14(c, result):
             tq.append((vid, querygen.render(toks, c.rng, style)))
             ids.append(vid)
         groups.append((ids, len(q['frm'])))
+    # the same queries with their keywords in lower and mixed case, ending in a number directly before SELECT: whether
+    # or not that spelling is accepted, it is accepted (and answered) alike in every layout
+    for qid, q in qs[:10 if c.tier == 'quick' else 60]:
+        toks = querygen.query_tokens(q)
+        if 'WHERE' not in toks or any('\n' in t for t in toks):
+            continue
+        si = len(toks) - 1 - toks[::-1].index('SELECT')
+        toks = toks[:si] + ['&&', '1', '==', '1'] + toks[si:]
+        for cname, fn in (('lower', str.lower), ('mixed', str.capitalize)):
+            kt = [fn(t) if t in ('FROM', 'WHERE', 'AS', 'SELECT', 'predicate') else t for t in toks]
+            ids = []
+            for j, style in enumerate(['plain', 'tight', 'wild', 'tab', 'cr']):
+                vid = '%s_%s_%d' % (qid, cname, j)
+                tq.append((vid, querygen.render(kt, c.rng, style)))
+                ids.append(vid)
+            groups.append((ids, len(q['frm'])))
+            c.stats['c14_keyword_case_groups'] += 1
     res, ip, _ = c.run(tq)
     model = c.model(tq)
     c.tie(tq, res, ip, model, result)
